@@ -250,14 +250,16 @@ impl BandL {
 #[derive(Clone, Debug)]
 pub struct Layout {
     pub bands: Vec<BandL>,
+    /// version ids start here (0, or 9998 so that ids cross from four to five digits)
+    pub id_base: u32,
 }
 
 impl Layout {
     pub fn text(&self) -> String {
-        self.bands.iter().enumerate().map(|(i, b)| format!("{}: {}", band_name(i as u32), b.text())).collect::<Vec<_>>().join(" | ")
+        self.bands.iter().enumerate().map(|(i, b)| format!("{}: {}", band_name(self.id_base + i as u32), b.text())).collect::<Vec<_>>().join(" | ")
     }
     pub fn json(&self) -> Value {
-        json!(self.bands.iter().enumerate().map(|(i, b)| format!("{}: {}", band_name(i as u32), b.text())).collect::<Vec<_>>())
+        json!(self.bands.iter().enumerate().map(|(i, b)| format!("{}: {}", band_name(self.id_base + i as u32), b.text())).collect::<Vec<_>>())
     }
     fn get(&self, b: u32) -> Option<&BandL> {
         self.bands.get(b as usize).filter(|x| x.dir)
@@ -303,7 +305,7 @@ fn materialize(root: &Path, l: &Layout) {
         if !b.dir {
             continue;
         }
-        let bd = root.join(band_name(i as u32));
+        let bd = root.join(band_name(l.id_base + i as u32));
         fs::create_dir(&bd).expect("mkdir band");
         write_st(bd.join("BANDHEAD"), b.head, HEAD);
         if b.idir {
@@ -404,6 +406,9 @@ fn rule(l: &Layout, n: u32) -> RuleResult {
 }
 
 fn account_layout(report: &mut Report, l: &Layout) {
+    if l.id_base > 0 {
+        report.hit("layout:version-ids-cross-10000");
+    }
     report.hit(&format!("layout:bands={}", l.bands.len()));
     for b in &l.bands {
         report.hit(&format!("band:{}", b.state_name()));
@@ -705,7 +710,7 @@ impl Ctx<'_> {
                 }
             }
         }
-        let qs: Vec<Query> = plan.iter().map(|(n, si, xi)| Query { band: *n, subtree: SUBTREES[*si].to_string(), exclude: EXCLUDES[*xi].iter().map(|s| s.to_string()).collect() }).collect();
+        let qs: Vec<Query> = plan.iter().map(|(n, si, xi)| Query { band: l.id_base + *n, subtree: SUBTREES[*si].to_string(), exclude: EXCLUDES[*xi].iter().map(|s| s.to_string()).collect() }).collect();
         let tm = std::time::Instant::now();
         let reals = self.runner.list_many(&self.dir, &qs);
         self.t_real += tm.elapsed().as_secs_f64();
@@ -724,17 +729,17 @@ impl Ctx<'_> {
             let patterns = &q.exclude;
             let excluded = self.excluded[xi].clone();
             let plain = (si, xi) == (0, 0);
-            let case = json!({"op": "list", "layout": l.json(), "version": band_name(n), "subtree": subtree, "exclude": patterns, "excluded_pool_paths": excluded});
+            let case = json!({"op": "list", "layout": l.json(), "version": band_name(l.id_base + n), "subtree": subtree, "exclude": patterns, "excluded_pool_paths": excluded});
             self.queries += 1;
             if self.queries <= 40 || self.queries % 997 == 0 {
                 // the fast runner is real::real_list minus delays: keep them identical
-                let slow = real_list(&self.dir, &Sel::Band(n), subtree, patterns, IceptConfig::default());
+                let slow = real_list(&self.dir, &Sel::Band(l.id_base + n), subtree, patterns, IceptConfig::default());
                 self.report.hit("runner:cross-checked-with-real_list");
                 if slow.lines != real.lines || slow.events != real.events || slow.result != real.result || slow.trace != real.trace {
                     self.report.oracle_fail("harness:runner-mismatch", case.clone(), "fast runner and real::real_list differ", json!({"fast": real.result, "slow": slow.result}));
                 }
             }
-            let canonical = format!("{ltext} ? list {} {subtree} {patterns:?}", band_name(n));
+            let canonical = format!("{ltext} ? list {} {subtree} {patterns:?}", band_name(l.id_base + n));
             let nontrivial = rr.chain.len() >= 2;
             self.report.case(&canonical, nontrivial);
             self.report.hit(&format!("query:subtree={subtree} exclude={:?}", EXCLUDES[xi]));
@@ -749,7 +754,7 @@ impl Ctx<'_> {
                 unfiltered_ok = ok;
             }
             // the model's turn
-            let mut req = format!("list {} s:{} {}", band_name(n), hex::encode(subtree.as_bytes()), excluded.len());
+            let mut req = format!("list {} s:{} {}", band_name(l.id_base + n), hex::encode(subtree.as_bytes()), excluded.len());
             for x in &excluded {
                 req.push_str(&format!(" s:{}", hex::encode(x.as_bytes())));
             }
@@ -935,7 +940,11 @@ fn gen_layout(rng: &mut Rng, max_bands: usize, pool8: &[&'static str], pool12: &
     } else {
         pool.to_vec()
     };
-    Layout { bands: (0..nb).map(|b| gen_band(rng, b as u32, &pool)).collect() }
+    let bands: Vec<BandL> = (0..nb).map(|b| gen_band(rng, b as u32, &pool)).collect();
+    // ids crossing from four to five digits (b9998 … b10001) — only when the oldest version is complete, so that
+    // no listing walks down through ten thousand absent ids one stat at a time (correct, but slow)
+    let oldest_complete = bands.first().is_some_and(|b| b.dir && b.head == FileSt::Ok && b.idir && b.tail == FileSt::Ok);
+    Layout { bands, id_base: if oldest_complete && rng.chance(1, 3) { 9998 } else { 0 } }
 }
 
 /// Every configuration of one version over a (sorted) pool: absent, or {incomplete, complete} x
@@ -992,7 +1001,7 @@ fn exhaustive(cx: &mut Ctx, nb: usize, pool: &[&'static str]) -> u64 {
                 },
             })
             .collect();
-        let l = Layout { bands };
+        let l = Layout { bands, id_base: 0 };
         let mut rng = Rng::new(0xC08 ^ count);
         cx.process(&l, 1, &mut rng);
         count += 1;
